@@ -1387,7 +1387,9 @@ def idRest (a : Agent) (len : Nat) : Agent × List Out :=
 
 theorem inboundData_eq (a : Agent) (now : Nat) (l : Cand) (src len : Nat) :
     a.inboundData now l src len =
-      if !(idLook a now l src).2 then ((idLook a now l src).1, []) else idRest (idLook a now l src).1 len := rfl
+      if !(idLook a now l src).2 then ((idLook a now l src).1, [])
+      else if !rxFits (idLook a now l src).1.rx len then ((idLook a now l src).1, [])
+      else idRest (idLook a now l src).1 len := rfl
 
 theorem view_idLook (a : Agent) (now : Nat) (l : Cand) (src : Nat) : view (idLook a now l src).1 = view a := by
   unfold idLook
@@ -1412,6 +1414,8 @@ theorem inboundData_post {a : Agent} {L : Log} (h : AInv Good Sane SaneR tag lit
     Post Good Sane SaneR tag lite R L (a.inboundData now l src len) := by
   rw [inboundData_eq]
   have h1 : AInv Good Sane SaneR tag lite (view (idLook a now l src).1) L := by rw [view_idLook]; exact h
+  split
+  · exact Post.ret h1
   split
   · exact Post.ret h1
   · have := view_idRest (idLook a now l src).1 len
